@@ -5,6 +5,7 @@ from .. import hgen
 from ..hbase import STUBS
 from ..hlib import c14 as L
 from .common import BASE_ASSUMPTIONS, ROOT, Cond, Spec
+from ..runner import innermost as U
 
 
 def build(tier):
@@ -27,8 +28,8 @@ def build(tier):
     S = aioftp.Server
     return Spec(
         pid="C14", source=src, conds=conds,
-        functions_encoded=[S.abor.__wrapped__, aioftp.server.worker, aioftp.ConnectionConditions.__call__, S.dispatcher, S.retr.__wrapped__.__wrapped__.__wrapped__,
-                           S.stor.__wrapped__.__wrapped__, S.list.__wrapped__.__wrapped__.__wrapped__, S.mlsd.__wrapped__.__wrapped__.__wrapped__],
+        functions_encoded=[U(S.abor), aioftp.server.worker, aioftp.ConnectionConditions.__call__, S.dispatcher, U(S.retr),
+                           U(S.stor), U(S.list), U(S.mlsd)],
         bounds={
             "transfer": f"{L.KINDS}; 7-byte file / 7-byte upload arriving byte by byte 1 virtual ms apart; server block size in (1, 3)",
             "ABOR arrival": f"delivered at the k-th event-loop iteration after the 150 mark was written, k symbolic in 0..{K} (covers: before the data connection is made, every byte position, after completion); "
